@@ -392,7 +392,9 @@ func verifMDRunBehaviour(t *testing.T, mode string, idx int, beh verifMDBeh) (ou
 	emit("Begin", "clock0", beh.C.Clock0)
 	ctx := context.Background()
 	var classes []string
-	var lastPost map[string]any
+	// metrics whose flood row was changed by ResetFlood (which writes no binlog event) since the
+	// empty file (index 0) / since each snapshot, and not rewritten by a logged creation since
+	taints := []map[string]bool{{}}
 	for i, st := range beh.Steps {
 		out.steps++
 		post := st.Post()
@@ -441,7 +443,7 @@ func verifMDRunBehaviour(t *testing.T, mode string, idx int, beh verifMDBeh) (ou
 				post = as.Post()
 				classes[len(classes)-1] = "Race:alt"
 				if verifkit.Canon(w1) != verifkit.Canon(w2) {
-					out.diverged = true
+					left(i, act, "first request serialised first", "second request serialised first (equally allowed)")
 				}
 			default:
 				left(i, act, []any{w1, w2}, []any{got, r1.err, r2.err})
@@ -459,6 +461,11 @@ func verifMDRunBehaviour(t *testing.T, mode string, idx int, beh verifMDBeh) (ou
 				}
 			}
 			line = emit("Goc", "metric", st.Str("metric"), "key", st.Str("key"), "kind", kind, "rid", id)
+			if kind == "created" {
+				for _, tn := range taints {
+					delete(tn, st.Str("metric"))
+				}
+			}
 			classes[len(classes)-1] = "Goc:" + st.Str("kind")
 			want := []any{st.Str("kind"), st.Int("rid")}
 			got := []any{kind, id}
@@ -491,6 +498,9 @@ func verifMDRunBehaviour(t *testing.T, mode string, idx int, beh verifMDBeh) (ou
 		case "Reset":
 			_, after, err := r.db.ResetFlood(ctx, st.Str("metric"), int64(st.Int("limit")))
 			line = emit("RFlood", "metric", st.Str("metric"), "limit", st.Int("limit"), "ok", err == nil)
+			for _, tn := range taints {
+				tn[st.Str("metric")] = true
+			}
 			if err != nil || int(after) != st.Int("after") {
 				left(i, act, st.Int("after"), []any{after, fmt.Sprint(err)})
 			}
@@ -527,6 +537,7 @@ func verifMDRunBehaviour(t *testing.T, mode string, idx int, beh verifMDBeh) (ou
 				return
 			}
 			r.snaps = append(r.snaps, name)
+			taints = append(taints, map[string]bool{})
 			if err := r.open("db", false); err != nil {
 				fail(i, "replay-fails: reopen of the primary's own file", "open", err.Error(), "")
 				return
@@ -549,7 +560,11 @@ func verifMDRunBehaviour(t *testing.T, mode string, idx int, beh verifMDBeh) (ou
 		if mode == "C15" && act != "Tick" {
 			line["j"] = proj["j"]
 		}
-		if mode == "C19" && act != "Tick" {
+		// long histories (tables of a thousand rows): read-back tables in the trace and the
+		// per-row lookups only every 97th step and at the end
+		nm := len(proj["m"].([]any))
+		sparse := nm > 64 && i%97 != 0 && i != len(beh.Steps)-1
+		if mode == "C19" && act != "Tick" && !sparse {
 			line["m"] = proj["m"]
 		}
 		// agreement with the mechanism of the specification: counted only
@@ -561,7 +576,7 @@ func verifMDRunBehaviour(t *testing.T, mode string, idx int, beh verifMDBeh) (ou
 		if mode == "C15" {
 			want["h"] = verifMDHistPublic(post["h"])
 		}
-		if d := verifMDDiff(want, proj, fields); len(d) > 0 && !out.diverged {
+		if d := verifMDDiff(want, proj, fields); len(post) > 0 && len(d) > 0 && !out.diverged {
 			left(i, act+" state "+strings.Join(d, ","), want[d[0]], proj[d[0]])
 		}
 		if mode == "C15" {
@@ -573,7 +588,7 @@ func verifMDRunBehaviour(t *testing.T, mode string, idx int, beh verifMDBeh) (ou
 				return
 			}
 		}
-		if mode == "C19" {
+		if mode == "C19" && !sparse {
 			mj, _ := json.Marshal(proj["m"])
 			var mm []any
 			_ = json.Unmarshal(mj, &mm)
@@ -582,7 +597,6 @@ func verifMDRunBehaviour(t *testing.T, mode string, idx int, beh verifMDBeh) (ou
 				return
 			}
 		}
-		lastPost = post
 	}
 	out.class = strings.Join(classes, ",")
 	if mode != "C16" {
@@ -597,10 +611,6 @@ func verifMDRunBehaviour(t *testing.T, mode string, idx int, beh verifMDBeh) (ou
 	if err := r.close(); err != nil {
 		out.note = "infra: close: " + err.Error()
 		return
-	}
-	var taints []any
-	if lastPost != nil {
-		taints, _ = lastPost["taint"].([]any)
 	}
 	all := []string{"j", "h", "m", "seq", "eseq", "f", "b"}
 	files := append([]string{"fresh"}, r.snaps...)
@@ -624,12 +634,9 @@ func verifMDRunBehaviour(t *testing.T, mode string, idx int, beh verifMDBeh) (ou
 			continue
 		}
 		sig := "replay-diverges: " + strings.Join(d, ",")
-		if len(d) == 1 && d[0] == "f" && !out.diverged && k < len(taints) {
+		if len(d) == 1 && d[0] == "f" && k < len(taints) {
 			// flood rows of metrics reset by ResetFlood since this snapshot (no binlog event)
-			taint := map[string]bool{}
-			for _, m := range taints[k].([]any) {
-				taint[m.(string)] = true
-			}
+			taint := taints[k]
 			rows := func(p any) map[string]string {
 				res := map[string]string{}
 				b, _ := json.Marshal(p)
